@@ -1,10 +1,123 @@
-(* C32 — property theorems only.  Each is closed by `exact <lemma>` and followed by Print Assumptions. *)
+(* C32 — property theorems only.  Each is closed by `exact <lemma>` and followed by Print Assumptions.
+   (Refutations / examples are closed by vm_compute on a concrete witness.) *)
 From Coq Require Import List ZArith NArith Arith Bool.
 From Verif.C32 Require Import Model Spec Proofs.
 Import ListNotations.
 Open Scope Z_scope.
 
-(* A flow dated at or after the end of the retained history is rejected. *)
+(* Ring consistency, for EVERY configuration with >= 2 buckets and a positive interval and EVERY interleaving of
+   ingest / rollover (with or without sink) / sink attach / List / Statistics, in either variant of the code:
+   the slot m steps behind the head holds exactly the interval [H-(m+1)*interval, H-m*interval), H = end of history.
+   (ring_ok is Proofs.cons_upto over all slots.) *)
+Theorem c32_ring_consistent : forall n interval now p k fw fa ops,
+  (2 <= n)%nat -> 0 < interval -> ring_ok (run_state (new_ring n interval now p k fw fa) ops).
+Proof. exact reachable_ok. Qed.
+Print Assumptions c32_ring_consistent.
+
+(* findBucket's index arithmetic over Z: in a consistent ring a start time inside the retained history [boh, eoh)
+   is sent by the division alone (never the fallback scan) to a slot whose interval contains it, that slot is the
+   ONLY slot whose interval contains it, its interval is one `interval` long and aligned with the end of history;
+   late flows older than the history and future-dated flows at/after the end of history are rejected. *)
+Theorem c32_one_bucket : forall r t, ring_ok r ->
+  (boh r <= t < eoh r ->
+     exists idx, find_bucket r t = Some idx /\ (idx < nb r)%nat
+       /\ idx = idx_sub (nb r) (r_head r) (Z.to_nat ((eoh r - 1 - t) / r_interval r))
+       /\ b_start (bk r idx) <= t < b_end (bk r idx)
+       /\ b_end (bk r idx) = b_start (bk r idx) + r_interval r
+       /\ (b_start (bk r idx) - eoh r) mod r_interval r = 0
+       /\ forall j, (j < nb r)%nat -> b_start (bk r j) <= t < b_end (bk r j) -> j = idx)
+  /\ (~ (boh r <= t < eoh r) -> find_bucket r t = None).
+Proof. exact find_bucket_spec. Qed.
+Print Assumptions c32_one_bucket.
+
+Theorem c32_history_span : forall r, ring_ok r -> boh r = eoh r - Z.of_nat (nb r) * r_interval r.
+Proof. exact ring_ok_boh. Qed.
+Print Assumptions c32_history_span.
+
+(* Every accepted flow is counted exactly once: its counts are added to the statistics of the one bucket containing
+   its start time and to the key's diachronic windows, every other bucket is unchanged; a rejected flow changes
+   nothing at all. *)
+Theorem c32_counted_once : forall r f r' ob, ring_ok r -> add_flow r f = (r', ob) ->
+  match ob with
+  | None => ~ (boh r <= f_start f < eoh r) /\ r' = r
+  | Some b =>
+      boh r <= f_start f < eoh r /\
+      exists idx, (idx < nb r)%nat /\ b = b_start (bk r idx) /\ b <= f_start f < b + r_interval r
+        /\ (forall j, (j < nb r)%nat -> b_start (bk r j) <= f_start f < b_end (bk r j) -> j = idx)
+        /\ bk r' idx = bucket_add f (bk r idx)
+        /\ (forall j, j <> idx -> bk r' j = bk r j)
+        /\ ring_total r' = cadd (ring_total r) (f_cnt f)
+        /\ dia_total (r_dia r') = cadd (dia_total (r_dia r)) (f_cnt f)
+  end.
+Proof. exact add_flow_counted_once. Qed.
+Print Assumptions c32_counted_once.
+
+(* The model's acceptance decision and bucket choice satisfy the specification's rule (Spec.ok_add) in every
+   reachable state.  PARTIAL model-meets-spec: the List / Statistics / emission clauses of Spec.ok_trace are NOT
+   proved over the model (they need the invariant tying every bucket's statistics and every diachronic window to
+   the log of accepted flows, which was not completed); they are checked on the implementation's and the model's
+   outputs by the correspondence run only. *)
+Theorem c32_model_meets_spec_add_partial : forall r f log em, ring_ok r ->
+  ok_add (nb r) (r_interval r) {| s_eoh := eoh r; s_log := log; s_emitted := em |} f (snd (add_flow r f)) = true.
+Proof. exact add_meets_spec. Qed.
+Print Assumptions c32_model_meets_spec_add_partial.
+
 Theorem c32_future_rejected : forall r t, eoh r <= t -> find_bucket r t = None.
 Proof. exact find_bucket_future_rejected. Qed.
 Print Assumptions c32_future_rejected.
+
+(* ---- the property is FALSE of the code as found (variant fw = fa = false); witnesses replayed on the real code ---- *)
+Definition fl (k : N) (t p b : Z) : flow := {| f_key := k; f_start := t; f_cnt := (p, b) |}.
+
+(* "each window of buckets is emitted at most once" fails: 7 buckets of 10 s, pushAfter 0, bucketsToAggregate 2
+   (a configuration valid_cfg accepts), one flow, first sink attach: the bucket [980,990) is handed over twice. *)
+Theorem c32_emit_at_most_once_refuted :
+  valid_cfg 7 10 0 2 = true /\
+  run (new_ring 7 10 1000 0 2 false false) [OpAdd (fl 1 985 1 1); OpEmit]
+  = [OAdd (Some 980);
+     OEmitted [(970, 990, [{| a_key := 1; a_cnt := (1, 1); a_start := 980; a_end := 990 |}]);
+               (980, 1000, [{| a_key := 1; a_cnt := (1, 1); a_start := 980; a_end := 990 |}])]].
+Proof. vm_compute. split; reflexivity. Qed.
+Print Assumptions c32_emit_at_most_once_refuted.
+
+(* the emission walk does not terminate (model: fuel exhausted after 2n+4 windows; Go: endless loop that appends):
+   10 buckets, pushAfter 1, bucketsToAggregate 2 *)
+Theorem c32_emit_terminates_refuted :
+  valid_cfg 10 15 1 2 = true /\
+  run (new_ring 10 15 1700052810 1 2 false false) [OpAdd (fl 0 1700052822 8 1419); OpEmit] = [OAdd (Some 1700052810); ODiverge].
+Proof. vm_compute. split; reflexivity. Qed.
+Print Assumptions c32_emit_terminates_refuted.
+
+(* "query results equal the sums of the accepted flows in that range" fails for a range ending inside a bucket:
+   the one accepted flow is reported with no counts and StartTime 0 - neither reading of the range gives that. *)
+Theorem c32_query_sums_refuted :
+  let ops := [OpAdd (fl 3 1700068919 5 749); OpList 1700068800 1700068913] in
+  let outs := run (new_ring 9 60 1700068800 5 2 false false) ops in
+  outs = [OAdd (Some 1700068860); OList [{| a_key := 3; a_cnt := (0, 0); a_start := 0; a_end := 0 |}]]
+  /\ ok_trace 9 60 1700068800 ops outs = false.
+Proof. vm_compute. split; reflexivity. Qed.
+Print Assumptions c32_query_sums_refuted.
+
+(* With the two repairs (fixes/C32-*.patch; variant fw = fa = true) the same three histories satisfy the specification. *)
+Example c32_repaired_examples :
+  ok_trace 7 10 1000 [OpAdd (fl 1 985 1 1); OpEmit] (run (new_ring 7 10 1000 0 2 true true) [OpAdd (fl 1 985 1 1); OpEmit]) = true
+  /\ ok_trace 10 15 1700052810 [OpAdd (fl 0 1700052822 8 1419); OpEmit]
+       (run (new_ring 10 15 1700052810 1 2 true true) [OpAdd (fl 0 1700052822 8 1419); OpEmit]) = true
+  /\ ok_trace 9 60 1700068800 [OpAdd (fl 3 1700068919 5 749); OpList 1700068800 1700068913]
+       (run (new_ring 9 60 1700068800 5 2 true true) [OpAdd (fl 3 1700068919 5 749); OpList 1700068800 1700068913]) = true.
+Proof. vm_compute. repeat split; reflexivity. Qed.
+
+(* Non-vacuity: a reachable, consistent ring with late, future and rejected flows, rollovers and an emission. *)
+Example c32_example :
+  let ops := [OpAdd (fl 1 1005 3 30); OpAdd (fl 2 975 1 10); OpAdd (fl 1 1020 1 1); OpAdd (fl 1 949 1 1); OpEmit;
+              OpRollover true; OpList 0 0; OpStats 960 1010] in
+  let outs := run (new_ring 8 10 1000 2 2 false false) ops in
+  ok_trace 8 10 1000 ops outs = true /\
+  outs = [OAdd (Some 1000); OAdd (Some 970); OAdd None; OAdd (Some 940);
+          OEmitted [(940, 960, [{| a_key := 1; a_cnt := (1, 1); a_start := 940; a_end := 950 |}]);
+                    (960, 980, [{| a_key := 2; a_cnt := (1, 10); a_start := 970; a_end := 980 |}])];
+          OEmitted [];
+          OList [{| a_key := 1; a_cnt := (3, 30); a_start := 1000; a_end := 1010 |};
+                 {| a_key := 2; a_cnt := (1, 10); a_start := 970; a_end := 980 |}];
+          OStats (Some [(1%N, (3, 30)); (2%N, (1, 10))])].
+Proof. vm_compute. split; reflexivity. Qed.
